@@ -405,7 +405,8 @@ class Header(SimpleNamespace):
 
 class FieldStorage:
 
-    _patt = re.compile('(.+?)(=(.+?))?(;|$)')
+    # a parameter value is either a quoted string (which may contain `;`) or runs up to the next `;`
+    _patt = re.compile('(.+?)(=("[^"]*"|.+?))?(;|$)')
 
     name: str
     value: Optional[str]
